@@ -29,12 +29,12 @@ structure Node (α : Type) where
   a0 : α
   a1 : α
   a2 : α
-  deriving Repr, Inhabited
+  deriving Repr, Inhabited, DecidableEq
 
 inductive Tree (α : Type) where
   | nil : Tree α
   | node (l : Tree α) (n : Node α) (mx : α) (red : Bool) (r : Tree α) : Tree α
-  deriving Repr, Inhabited
+  deriving Repr, Inhabited, DecidableEq
 
 inductive Dir where
   | L | R
@@ -167,6 +167,14 @@ def recolour (f : List Dir → Bool → Bool) : List Dir → Tree α → Tree α
   | _, .nil => .nil
   | p, .node l n mx c r => .node (recolour f (p ++ [.L]) l) n mx (f p c) (recolour f (p ++ [.R]) r)
 
+/-- what `_rb_insert_fixup` / `_rb_delete_fixup` can do to a tree: any sequence of single rotations
+    (each with the code's augmentation repair) and recolourings -/
+inductive Rebal (S : α) : Tree α → Tree α → Prop where
+  | refl (t : Tree α) : Rebal S t t
+  | rotL (p : List Dir) {t u : Tree α} : Rebal S (atPath (rotL S) p t) u → Rebal S t u
+  | rotR (p : List Dir) {t u : Tree α} : Rebal S (atPath (rotR S) p t) u → Rebal S t u
+  | colour (f : List Dir → Bool → Bool) {t u : Tree α} : Rebal S (recolour f [] t) u → Rebal S t u
+
 /-! ### insertion up to the fixup (`_insert_into_tree` before `_rb_insert_fixup`) -/
 
 /-- returns the new subtree and whether the upward propagation loop is still running -/
@@ -267,6 +275,24 @@ def refresh (S : α) : Tree α → Tree α
 def delCore (S : α) (k : α) (t : Tree α) : Option (Tree α) :=
   (del S k t).map fun res => if res.atY then refresh S res.t else res.t
 
+/-! ### the invariants -/
+
+/-- strictly ordered keys -/
+def BST : Tree α → Prop
+  | .nil => True
+  | .node l n _ _ r =>
+    (∀ a ∈ l.toList, a.key < n.key) ∧ (∀ b ∈ r.toList, n.key < b.key) ∧ BST l ∧ BST r
+
+/-- the stored maxima never OVERestimate the true subtree maximum (they may underestimate) -/
+def AugLe (S : α) : Tree α → Prop
+  | .nil => True
+  | .node l n mx c r => mx ≤ trueMax S (.node l n mx c r) ∧ AugLe S l ∧ AugLe S r
+
+/-- the stored maxima are exact -/
+def Exact (S : α) : Tree α → Prop
+  | .nil => True
+  | .node l n mx c r => mx = trueMax S (.node l n mx c r) ∧ Exact S l ∧ Exact S r
+
 /-! ### decidable forms of the invariants (used by the driver on the real trees) -/
 
 def Tree.all (p : Node α → Bool) : Tree α → Bool
@@ -343,6 +369,40 @@ def coreOps (S : α) : TreeOps α where
 def dummy (S zero negOne : α) : Node α := ⟨zero, negOne, negOne, S, S, S, zero⟩
 
 def initTree (S zero negOne : α) : Tree α := .node .nil (dummy S zero negOne) S false .nil
+
+
+/-! ### the refinement relation between the tree and the abstract list -/
+
+/-- the tree holds exactly the abstract active set plus the permanent dummy `d`, with strictly
+    ordered keys and stored maxima that never overestimate -/
+def Rel (S : α) (d : Node α) (t : Tree α) (st : List (Node α)) : Prop :=
+  BST t ∧ AugLe S t ∧ ∀ n, n ∈ t.toList ↔ (n = d ∨ n ∈ st)
+
+/-- what the sweep guarantees at a centre event: the gradient is not below the sentinel, the cell
+    itself is active, every nearer active cell spans the bearing, and the dummy contributes nothing -/
+def QOK (S : α) (d : Node α) (st : List (Node α)) (k ang g : α) : Prop :=
+  S ≤ g ∧ (∃ n ∈ st, n.key = k) ∧ (∀ n ∈ st, n.key < k → spans n ang = true) ∧
+    minv d ≤ g ∧ (spans d ang = true → itp d ang ≤ g)
+
+def OpOK (S : α) (d : Node α) (st : List (Node α)) : Op α → Prop
+  | .ins n => n.key ≠ d.key ∧ ∀ m ∈ st, m.key ≠ n.key
+  | .del _ => True
+  | .qry k ang g => QOK S d st k ang g
+
+def OpsOK (S : α) (d : Node α) : List (Node α) → List (Op α) → Prop
+  | _, [] => True
+  | st, op :: ops => OpOK S d st op ∧ OpsOK S d (stepL st op).1 ops
+
+/-- every state of this run of implementation `O` is related to the abstract state
+    (what seam 1 of the correspondence checks on the real arrays after every operation) -/
+def InvAlong (S : α) (d : Node α) (O : TreeOps α) : Tree α → List (Node α) → List (Op α) → Prop
+  | t, st, [] => Rel S d t st
+  | t, st, op :: ops => Rel S d t st ∧ InvAlong S d O (stepT S O t op).1 (stepL st op).1 ops
+
+/-- each tree operation preserves the relation -/
+def Preserves (S : α) (d : Node α) (O : TreeOps α) : Prop :=
+  (∀ t st n, Rel S d t st → n.key ≠ d.key → (∀ m ∈ st, m.key ≠ n.key) → Rel S d (O.ins n t) (n :: st)) ∧
+  (∀ t st k, Rel S d t st → Rel S d (O.del k t) (st.filter fun n => !(eqv n.key k)))
 
 end
 
